@@ -198,7 +198,18 @@ def text_roundtrip(run, fgd: Any, custom: bool, label: bool, as_bytes: bool, eng
         run.violation(f'export(file) raised {type(exc).__name__}: {exc}', case=case, engine=engine, key='export-raises')
     # export() completes the visgroup tree in place (it adds the groups that are only named as parents, 'Auto' included),
     # so the reference for the FGD-level sections is the object as it stands after the export
+    level_given = level_before
     level_before = G.fgd_level(fgd)
+    # ... but completing is all it may do: every group that was there before is still there with its name, parent and entities
+    given = {row[0]: row for row in level_given['auto_visgroups']}
+    now = {row[0]: row for row in level_before['auto_visgroups']}
+    for key_cf, row in given.items():
+        if now.get(key_cf) != row:
+            run.violation(f'export changed the auto-visgroup {row[1]!r} of the FGD it was given: {row!r} -> {now.get(key_cf)!r}',
+                          witness={'before': row, 'after': now.get(key_cf)}, case=case, engine=engine, key='export-rewrites-visgroup-tree')
+            return text, False
+    if given:
+        run.count('visgroup_trees_checked_against_export')
     after = G.snap_fgd(fgd)
     if after != before:
         d = G.first_diff(before, after)
@@ -529,6 +540,22 @@ def lazy_case(run, index: int) -> None:
     rng = sub_rng(run.seed, 'lazy', index)
     ref = lazy_reference()
     names = sorted(ref)
+    if index == 0:
+        # documented shape of the engine database (serialise(): "_CBaseEntity_ is present, with all others based on it"):
+        # an independent reference for what both loading routes attach as bases
+        def reaches_root(snap: dict, seen: set) -> bool:
+            if snap.get('classname', '').casefold() == '_cbaseentity_':
+                return True
+            if id(snap) in seen:
+                return False
+            seen.add(id(snap))
+            return any(reaches_root(b, seen) for b in snap.get('base_defs', ()) if 'unresolved' not in b)
+        run.count('engine_db_shape_checks')
+        rootless = [k for k in names if k != '_cbaseentity_' and not reaches_root(ref[k], set())]
+        if '_cbaseentity_' not in ref or rootless:
+            run.violation(f'bundled database: {len(rootless)} entities are not based on _CBaseEntity_ after a full load, e.g. {rootless[:5]}',
+                          witness={'rootless': rootless[:40]}, case={'engine': 'lazy', 'index': 0}, engine='lazy',
+                          key='engine-db-entity-not-based-on-cbaseentity')
     mode = index % 4
     if mode == 0:
         order = list(names)
@@ -742,7 +769,7 @@ def main(run, shard=(0, 1)) -> None:
         if cnt:
             run.count('reach:' + label_, cnt)
     run.require(*['reach:' + label_ for label_ in probe.counts])
-    run.require('spawnflag_names_with_leading_blanks', 'exports', 'parses', 'file_form_exports', 'fgd_level_sections_compared', 'entities_compared', 'second_exports', 'serialise_calls', 'unserialise_calls',
+    run.require('spawnflag_names_with_leading_blanks', 'exports', 'parses', 'file_form_exports', 'fgd_level_sections_compared', 'visgroup_trees_checked_against_export', 'engine_db_shape_checks', 'entities_compared', 'second_exports', 'serialise_calls', 'unserialise_calls',
                 'lazy_queries', 'dbase_roundtrips', 'binary_dbase_roundtrips', 'long_strings', 'empty_display_names',
                 'tagged_duplicate_keys', 'aliases', 'texts_with_plus_split', 'binary_entities_compared')
 
